@@ -2,7 +2,7 @@
 C16, `_Atomic` qualifier propagation: how parse.c / type.c carry `Type.is_atomic` from a declaration to the lvalue an
 update operator is applied to, and which path `to_assign` / `new_inc_dec` take.
 
-What is mirrored (code as it is, /repo c3d94ea)
+What is mirrored (code as it is, /repo 1c76c1e)
 
 Type constructors (type.c)
 * `copy_type`                           copies every field, `is_atomic` included
@@ -13,7 +13,10 @@ parse.c
                    `if (is_atomic) { ty = copy_type(ty); ty->is_atomic = true; }` - the flag lands on the top level of
                    whatever the specifiers designate: a primitive, a typedef's type (the typedef's `Type` is used as it
                    is, no copy), a struct/union/enum, `typeof(type-name)`, `typeof(expr)` (= `node->ty`)
-* `declarator`/`abstract_declarator`/`pointers`/`type_suffix`/`array_dimensions`   build the derived type around it
+* `declarator`/`abstract_declarator`/`pointers`/`type_suffix`/`array_dimensions`   build the derived type around it;
+                   `pointers` (since /repo 1c76c1e): after every `*` a loop over the qualifier tokens - `const`, `volatile`,
+                   `restrict`, `__restrict`, `__restrict__` are skipped, `_Atomic` sets `is_atomic` of the pointer `Type`
+                   that `pointer_to` has just made (`int *_Atomic p`: the POINTER is atomic, the pointee is not)
 * `declaration` (locals), `global_variable`, `parse_typedef`, `struct_members`   use the declarator's type as it is
 * `func_params`    array → `pointer_to(base)`, function → `pointer_to(ty)`, then `copy_type`
 * `struct_members` a bit-field whose type is atomic is a diagnostic ("bit-field has atomic type")
@@ -52,10 +55,16 @@ inductive Prim where
   | bool | char | uchar | short | ushort | int | uint | long | ulong | float | double | ldouble
   deriving DecidableEq, Repr, Inhabited
 
-/-- a declarator, C11 6.7.6: the identifier (or nothing, in a type name), `* D`, `D [n]`, `D (void)`, `( D )` -/
+/-- a type qualifier after the `*` of a pointer declarator, in the spellings parse.c `pointers` knows -/
+inductive PQual where
+  | const | volatile | restrict | restrict2 /- `__restrict` -/ | restrict3 /- `__restrict__` -/ | atomic
+  deriving DecidableEq, Repr, Inhabited
+
+/-- a declarator, C11 6.7.6: the identifier (or nothing, in a type name), `* type-qualifier-list D` (6.7.6.1; the list
+    in any order and multiplicity), `D [n]`, `D (void)`, `( D )` -/
 inductive Declr where
   | name
-  | ptr (d : Declr)
+  | ptr (d : Declr) (quals : List PQual)
   | arr (d : Declr) (n : Nat)
   | fn (d : Declr)
   | paren (d : Declr)
@@ -214,12 +223,22 @@ def lookupMember (ms : List Member) (m : String) : Option Member := ms.find? (·
 
 /-! ### declarators -/
 
+/-- one round of the `for (;;)` of parse.c `pointers`: `_Atomic` → `ty->is_atomic = true`, the other qualifiers are skipped -/
+def PQual.applyTo : PQual → Ty → Ty
+  | .atomic, ty => ty.setAtomic
+  | _, ty => ty
+
+/-- the qualifier loop of `pointers` on the `Type` that `pointer_to` has just returned -/
+def applyQuals : List PQual → Ty → Ty
+  | [], ty => ty
+  | q :: qs, ty => applyQuals qs (q.applyTo ty)
+
 /-- `declarator(tok, ty)` / `abstract_declarator(tok, ty)` on the parse tree: pointers first (`pointers`), the suffixes
     of the direct declarator from the right (`type_suffix` → `array_dimensions` recurses before it wraps), the declarator
     between parentheses last (it is skipped with a dummy type and re-read with the completed one) -/
 def Declr.apply : Declr → Ty → Ty
   | .name, ty => ty
-  | .ptr d, ty => d.apply (pointerTo ty)
+  | .ptr d qs, ty => d.apply (applyQuals qs (pointerTo ty))
   | .arr d n, ty => d.apply (arrayOf ty n)
   | .fn d, ty => d.apply (funcType ty)
   | .paren d, ty => d.apply ty
